@@ -471,7 +471,7 @@ PROPS["C08"] = dict(engine="multi", profiles=[("blob", 2, True), ("tree", 1, Tru
                     quick=60, thorough=1500, k=dict(quick=(3, 3), thorough=(5, 5)), modes=["blobdiff"], strip_ops=("droprange",),
                     relevant=lambda f: f["kind"] in ({"config-diff", "resolve", "dangling-pointer", "oracle-get", "oracle-contains", "oracle-range", "oracle-prefix", "oracle-len", "oracle-first", "oracle-last", "oracle-isempty", "agree", "inv", "reopen-diff", "filter-unknown-item"} | COMMON_KINDS),
                     nontrivial=lambda st: st.get("flush_steps", 0) >= 1 and st.get("gets_from_tables", 0) >= 1)
-PROPS["C09"] = dict(engine="tree", profiles=[("blob", 4, True), ("filter", 1, True), ("ingest", 1, True), ("fifo", 1, True)], n_ops=130,
+PROPS["C09"] = dict(engine="tree", profiles=[("blob", 4, True), ("filter", 1, True), ("ingest", 1, True), ("fifo", 1, True), ("weak", 1, True)], n_ops=130,
                     quick=200, thorough=5000,
                     relevant=lambda f: f["kind"] in (BLOB_KINDS | {"gc-ghost", "inv", "reopen-diff"} | COMMON_KINDS),
                     nontrivial=lambda st: st.get("gc_entries_checked", 0) >= 1 and st.get("merge_steps", 0) + st.get("drop_steps", 0) >= 1)
@@ -825,7 +825,20 @@ def finish(prop, tier, seed, spec, all_results, gen_errs, coq, workdir, t0, extr
             violations.append((hist, text, rel))
     os.makedirs(os.path.join(EVID, "replays"), exist_ok=True)
     reported = []
-    for (hist, text, rel) in violations[:3]:
+    # a known finding must never mask a different violation: histories that have at least one
+    # failure not matching a listed finding (on the unshrunk text) are handled first, with those
+    # failures in front; a few histories that only show known findings follow (their shrunk form
+    # must still match the finding, otherwise they are reported)
+    if spec.get("engine") != "fs":
+        unk_v, known_v = [], []
+        for (hist, text, rel) in violations:
+            unk = [f for f in rel if match_finding(prop, text, f, findings) is None]
+            if unk:
+                unk_v.append((hist, text, unk + [f for f in rel if f not in unk]))
+            else:
+                known_v.append((hist, text, rel))
+        violations = unk_v[:3] + known_v[:2]
+    for (hist, text, rel) in violations[:5]:
         f0 = rel[0]
         if f0.get("tbench_case"):
             # the same case may also contain a direct failure (a read that returns the wrong item)
@@ -887,6 +900,7 @@ def finish(prop, tier, seed, spec, all_results, gen_errs, coq, workdir, t0, extr
         open(sp, "w").write(small)
         fails2, _, _, _ = run_one(sp, workdir, "min")
         rel2 = [f for f in fails2 if relevant(f)] or rel
+        rel2 = [f for f in rel2 if f["kind"] == f0["kind"]] + [f for f in rel2 if f["kind"] != f0["kind"]]
         kf = match_finding(prop, small, rel2[0], findings)
         if kf:
             known_hits[kf["id"]] = kf
